@@ -287,3 +287,36 @@ def frame_pressure_programs(rng, n):
         lines.append('}')
         out.append(('\n'.join(lines) + '\n', [str(rng.choice([0, 1, 3, 7, 12]))]))
     return out
+
+
+# ----------------------------------------------------------------------------- C02/C03 defeat functions shared between try blocks
+def shared_defeat_programs():
+    """(src, args): one defeat function used from several try blocks of different kinds, in different functions, in every
+    order in which the code generator can meet them (it emits functions when they are first referenced, starting at
+    @is_you): the function's defeat calls must go through the word `defeat` whoever calls it first.  The argument decides
+    whether the defeat is reached."""
+    out = []
+    dfn = {
+        'truth': 'empty !chk(int x) { !truth_is_defeat(x > 0); }',
+        'plain': 'empty !chk(int x) { if (x > 0) { !is_defeat(); } }',
+        'nested': 'empty !inner(int x) { !truth_is_defeat(x > 0); }\nempty !chk(int x) { write(\'i\'); !inner(x); write(\'o\'); }',
+        'value': 'int !val(int x) { !truth_is_defeat(x > 0); return x + 7; }\nempty !chk(int x) { int y = !val(x); write(y); }',
+    }
+    stop_fn = ("empty @guard(int x) {\n    try { write('a'); !chk(x); write('b'); } stop { write('S'); }\n    write('g');\n}")
+    undo_fn = ("empty @probe(int x) {\n    try { write('c'); !chk(x); write('d'); } undo { write('U'); }\n    write('p');\n}")
+    mains = {
+        'undo_then_stopfn': "empty @is_you(int x) {\n    try { !chk(0); write('0'); } undo { write('u'); }\n    @guard(x);\n    writeln();\n}",
+        'stopfn_then_undo': "empty @is_you(int x) {\n    @guard(x);\n    try { !chk(x); write('1'); } undo { write('u'); }\n    writeln();\n}",
+        'undofn_then_stopfn': "empty @is_you(int x) {\n    @probe(x);\n    @guard(x);\n    @probe(0);\n    writeln();\n}",
+        'stop_inline_then_undofn': "empty @is_you(int x) {\n    try { write('a'); !chk(x); write('b'); } stop { write('S'); }\n    @probe(x);\n    writeln();\n}",
+        'undo_inline_only': "empty @is_you(int x) {\n    try { write('a'); !chk(x); write('b'); } undo { write('U'); }\n    try { !chk(0); write('2'); } undo { write('V'); }\n    writeln();\n}",
+        'twice_stopfn': "empty @is_you(int x) {\n    @guard(0);\n    @guard(x);\n    @guard(0);\n    writeln();\n}",
+    }
+    for dk, dsrc in dfn.items():
+        for mk, msrc in mains.items():
+            for order in (0, 1):
+                parts = [dsrc, stop_fn, undo_fn] if order == 0 else [undo_fn, stop_fn, dsrc]
+                src = '\n'.join(parts + [msrc]) + '\n'
+                for x in ('0', '1', '5'):
+                    out.append(('%s_%s_%d' % (dk, mk, order), src, [x]))
+    return out
